@@ -60,6 +60,11 @@ finally:
 for f in ("patch.diff", "demo.py", "notes.md"):
     if (vdir / f).exists():
         shutil.copy(vdir / f, out / f)
+try:
+    summ = json.loads(Path("/verif/seeded/summaries.json").read_text()).get(name, {})
+    meta.update(summ)
+except Exception:
+    pass
 meta["what_ran"] = f"tools/seedtest.py {prop} {vdir} (demo clean/patched, repo tests, VERIF_REPO=<worktree> ./check {prop} --tier {tier})"
 (out / "meta.json").write_text(json.dumps(meta, indent=1))
 print(json.dumps({k: meta[k] for k in meta if k not in ("check_output_tail", "demo_patched_output_tail")}, indent=1))
